@@ -2,7 +2,64 @@
 type str = string
 open Model
 
-let step_oracles (_bump : str -> unit) (_pre : vt) (_f : func) (_post : vt) : (str * str) list = []
-let nofn_oracles (_bump : str -> unit) (_pre : vt) (_cs : n list) (_post : vt) : (str * str) list = []
-let call_oracles (_bump : str -> unit) (_pre : vt) (_o : op) (_post : vt) (_ls : nat list) (_dr : line list) :
-    (str * str) list = []
+(* step oracles: (pre, function, post) *)
+let step_oracles (bump : str -> unit) (pre : vt) (f : func) (post : vt) : (str * str) list =
+  let r = ref [] in
+  let chk prop name b =
+    bump (prop ^ "." ^ name);
+    if not b then r := (prop, name) :: !r
+  in
+  chk "C02" "state" (holds_C02_state post);
+  chk "C04" "print" (holds_C04 pre f post);
+  chk "C05" "cursor" (holds_C05 pre f post);
+  chk "C06" "scroll" (holds_C06 pre f post);
+  chk "C07" "edit" (holds_C07 pre f post);
+  chk "C08" "sgr" (holds_C08 pre f post);
+  chk "C16" "alt" (holds_C16 pre f post);
+  chk "C16" "alt_resized" (holds_C16_resized pre f post);
+  chk "C17" "saved" (holds_C17 pre f post);
+  chk "C18" "tabs" (holds_C18 pre f post);
+  chk "C19" "ris" (holds_C19 pre f post);
+  !r
+
+(* chunk of characters that emitted no function *)
+let nofn_oracles (bump : str -> unit) (pre : vt) (cs : n list) (post : vt) : (str * str) list =
+  let r = ref [] in
+  bump "C20.inert";
+  if claims_inert pre cs then bump "C20.inert_claimed";
+  if not (holds_C20 pre cs post) then r := ("C20", "inert") :: !r;
+  if pre.vterm <> post.vterm then r := ("C20", "terminal_changed_without_function") :: !r;
+  !r
+
+(* feed_str("") / resize calls *)
+let call_oracles (bump : str -> unit) (pre : vt) (o : op) (post : vt) (ls : nat list) (_dr : line list)
+    (prev_view : line list) : (str * str) list =
+  let r = ref [] in
+  let chk prop name b =
+    bump (prop ^ "." ^ name);
+    if not b then r := (prop, name) :: !r
+  in
+  chk "C02" "call" (holds_C02_call o post ls);
+  chk "C13" "bound" (holds_C13 post);
+  chk "C15" "sound" (holds_C15 prev_view post ls);
+  (match o with
+   | Resize (_, _) ->
+       chk "C10" "resize" (holds_C10 pre post);
+       if Sys.getenv_opt "DRIVER_C10_DEBUG" <> None && not (holds_C10 pre post) then begin
+         let show (v : vt) =
+           let t = v.vterm in
+           let rec ion = function O -> 0 | S k -> 1 + ion k in
+           let rec iop = function XH -> 1 | XO p -> 2 * iop p | XI p -> 2 * iop p + 1 in
+           let ion_n = function N0 -> 0 | Npos p -> iop p in
+           let (k, o) = curs t.buf t.cur_col t.cur_row in
+           Printf.printf "  size=%dx%d cursor=(%d,%d) pend=%b k=%d o=%d nlines=%d\n" (ion t.cols) (ion t.rows) (ion t.cur_col) (ion t.cur_row) t.pend (ion k) (ion o) (List.length t.buf.lines);
+           List.iter (fun (l : line) -> Printf.printf "    row[%s]%s\n" (String.concat "" (List.map (fun c -> let x = ion_n c.ch in if x < 128 && x >= 32 then String.make 1 (Char.chr x) else "?") l.cells)) (if l.wrapped then " W" else "")) t.buf.lines;
+           List.iter (fun l -> Printf.printf "    log[%s]\n" (String.concat "" (List.map (fun c -> let x = ion_n c.ch in if x < 128 && x >= 32 then String.make 1 (Char.chr x) else "?") l))) (logical_t t.buf.lines)
+         in
+         print_endline "C10 DEBUG pre:"; show pre; print_endline "C10 DEBUG post:"; show post
+       end;
+       chk "C17" "resize" (holds_C17_resize pre post);
+       chk "C18" "resize" (holds_C18_resize pre post);
+       if tabs_are_default pre.vterm then chk "C18" "fresh" (tabs_are_default post.vterm)
+   | _ -> ());
+  !r
